@@ -367,3 +367,81 @@ def c05_frontend_history(ctx, method):
             ctx.ensure(f"shape {shape}, voxel scale {scale}: front-end == back-end on a fresh grid of THIS image", abs(front - back) <= 1e-9 * max(1.0, abs(back)))
             ctx.ensure(f"shape {shape}, voxel scale {scale}: first-moment bound", front >= first_moment_displacement(m1, m2) - 1e-9)
     ctx.ensure("no module-level state written by the front-end (frame)", frame.diff(before, frame.snapshot(["darsia.measure.wasserstein", "darsia.utils.grid"])) == [])
+
+
+# ---- thin grids: the unique flux, proved on the real iterations (back end H; machinery of C04.step) --------------------------------------
+
+from .C04_wasserstein import STEP_STUBS, _abstract_mobility_and_cost  # noqa: E402
+
+
+def _unique_flux(grid, shape, h, f):
+    """the only flux with div u = M f on a grid that is one cell thin in all but one axis: cumulative mass difference / face area"""
+    ax = int(np.argmax(shape))
+    vol = 1.0
+    for x in h:
+        vol = vol * x
+    area = vol / h[ax]
+    fl = np.ravel(np.moveaxis(np.asarray(f).reshape(shape, order="F"), ax, 0))
+    q, acc = [], 0
+    for c in range(len(fl) - 1):
+        acc = acc + fl[c] * vol
+        q.append(acc / area)
+    return np.array(q, dtype=object if any(not isinstance(v, float) for v in q) else float)
+
+
+@ob("C05.thin_flux", cases=lambda tier: [dict(shape=s, method=m, form=f, num_iter=k) for s in ([(4,), (1, 3), (3, 1), (1, 1, 3)] if tier == "quick" else [(2,), (4,), (6,), (1, 3), (3, 1), (1, 5), (1, 1, 3), (1, 3, 1), (4, 1, 1)])
+                                         for m in ("newton", "bregman") for f in ("full", "pressure") for k in ((2,) if tier == "quick" else (1, 2, 3))],
+    mods=["darsia.measure.wasserstein", "darsia.utils.fv", "darsia.utils.andersonacceleration"], stubs=STEP_STUBS, funcs=FUNCS, samples=(1, 2),
+    budget={"timeout_ms": 30000, "paths": 64, "decide_ms": 1500, "arith_solver": 2, "wall_s": 400}, tol=1e-7,
+    assumes=["splu(M).solve(b) returns x with M x = b exactly (direct back end)", "sparse-matrix model vf/symsparse.py (validated by C08.dep_sparse)",
+             "mobility abstracted by its contract (C04.face_weight): every mobility option; cost abstracted to an uninterpreted function: every L1 mode"],
+    cite="Where mass conservation leaves no freedom (one-dimensional and one-cell-thin grids) every method and mobility option returns the cost of the unique mass-conserving flux",
+    note="the real _solve on a symbolic mass difference: the returned flux IS the cumulative-sum flux and the distance is the cost functional at that flux - all data, every positive "
+         "mobility, every cost functional; per thin grid shape")
+def c05_thin_flux(ctx, shape, method, form, num_iter):
+    grid, h = grid_of(shape)
+    w = solver(method, grid, base_options(formulation=form, linear_solver="direct", num_iter=num_iter, tol_residual=2.0 ** -10, tol_increment=2.0 ** -10, tol_distance=2.0 ** -10))
+    nf, nc = int(grid.num_faces), int(grid.num_cells)
+    f = ctx.array("f", (nc - 1,), sample=(-1.0, 1.0))
+    f = np.concatenate([f, [-sum(f)]])
+    l1 = _abstract_mobility_and_cost(ctx, w) if ctx.sym else w.l1_dissipation
+    with warnings.catch_warnings():
+        warnings.simplefilter("ignore")
+        dist, sol, info = w._solve(f.copy())
+    flux = sol[w.flux_slice]
+    q = _unique_flux(grid, shape, h, f)
+    ctx.ensure("one interior face per pair of neighbouring cells along the long axis", len(q) == nf)
+    for i in range(nf):
+        ctx.ensure(f"face {i}: the returned flux is the unique mass-conserving flux (cumulative mass difference / face area)", eq(flux[i], q[i]))
+    ctx.ensure("the distance is the cost functional evaluated at the unique flux", eq(dist, l1(np.array(list(q), dtype=object if ctx.sym else float))))
+
+
+@ob("C05.thin_cost", cases=lambda tier: [dict(shape=s, l1=l, weighted=wt) for s in ([(4,), (1, 3), (3, 1)] if tier == "quick" else [(2,), (4,), (6,), (1, 3), (3, 1), (1, 1, 3), (1, 3, 1)])
+                                         for l in ("CONSTANT_CELL_PROJECTION", "CONSTANT_SUBCELL_PROJECTION") for wt in (False, True)],
+    mods=["darsia.measure.wasserstein", "darsia.utils.fv"], stubs=STEP_STUBS, funcs=FUNCS + ["darsia.measure.wasserstein:VariationalWassersteinDistance.l1_dissipation",
+    "darsia.measure.wasserstein:VariationalWassersteinDistance.transport_density"], samples=(2, 4), budget={"timeout_ms": 20000, "decide_ms": 1500},
+    cite="returns the cost of the unique mass-conserving flux, which is computable independently",
+    note="the real l1_dissipation on a symbolic flux of a thin grid equals the independently written cost: sum over cells of cell volume * cell weight * |mean of the two face values| "
+         "(cell projection) resp. mean of the two |face values| (sub-cell projection); sqrt over the reals")
+def c05_thin_cost(ctx, shape, l1, weighted):
+    grid, h = grid_of(shape)
+    dim = len(shape)
+    wimg = None
+    cw = np.ones(shape)
+    if weighted:
+        cw = ctx.array("cw", shape, pos=True, sample=(0.5, 2.0))
+        wimg = darsia.Image(cw, space_dim=dim, scalar=True, dimensions=[shape[k] * h[k] for k in range(dim)])
+    w = solver("newton", grid, base_options(l1_mode=W.L1Mode[l1], formulation="full"), wimg)
+    nf = int(grid.num_faces)
+    q = ctx.array("q", (nf,), sample=(-2.0, 2.0))
+    got = w.l1_dissipation(q)
+    vol = float(np.prod(h))
+    ax = int(np.argmax(shape))
+    cwl = np.ravel(np.moveaxis(np.asarray(cw), ax, 0))
+    qq = [0.0] + list(q) + [0.0]
+    want = 0
+    for c in range(len(qq) - 1):
+        lo, hi = qq[c], qq[c + 1]
+        cell = abs((lo + hi) / 2) if l1 == "CONSTANT_CELL_PROJECTION" else (abs(lo) + abs(hi)) / 2
+        want = want + vol * cwl[c] * cell
+    ctx.ensure("l1_dissipation(flux) == independently written cost of that flux", eq(got, want))
